@@ -658,8 +658,15 @@ bool Interpret::getAssignment() const {
     auto const & termNames = solver.getTermNames();
     ss << '(';
     bool first = true;
+    std::unique_ptr<Model> model; // built on demand
     for (auto const & [name, term] : termNames) {
         lbool val = solver.getTermValue(term);
+        if (val == l_Undef and config.produce_models() and logic->hasSortBool(term)) {
+            // The term itself has no literal (it was rewritten before it reached the SAT solver): its value in the model
+            if (not model) { model = main_solver->getModel(); }
+            PTRef value = model->evaluate(term);
+            val = value == logic->getTerm_true() ? l_True : (value == logic->getTerm_false() ? l_False : l_Undef);
+        }
         if (not first) { ss << ' '; }
         first = false;
         ss << '(' << name << ' ' << (val == l_True ? "true" : (val == l_False ? "false" : "unknown")) << ')';
